@@ -64,8 +64,11 @@ pub enum IKind {
     /// r2d2: flips the scripted connection's broken flag
     MarkBroken,
     /// diesel/CustomQuery: drops the table the validity query selects from;
-    /// sqlite: forbids bound parameters on the connection, so that the manager's `SELECT $1` fails
+    /// sqlite: forbids bound parameters on the connection, so that the manager's `SELECT $1` fails;
+    /// r2d2: the scripted connection fails `is_valid` from now on (while `has_broken` stays false)
     Invalidate,
+    /// diesel: a failed rollback leaves the transaction manager in its error state
+    TxError,
 }
 
 #[derive(Clone, Copy, Debug, Serialize, Deserialize, PartialEq, Eq)]
@@ -121,6 +124,8 @@ pub struct ConnRec {
     pub idle: bool,
     pub taken: bool,
     pub tx_open: bool,
+    /// diesel: the transaction manager is in its error state (no further transaction can begin)
+    pub tx_error: bool,
     pub test_tx: bool,
     pub alive_table: bool,
     pub dtor_count: u32,
@@ -390,6 +395,8 @@ impl Bk for SqliteB {
 pub struct ScriptedConn {
     pub serial: u32,
     pub broken: bool,
+    /// fails `is_valid` persistently (set by an `Invalidate` interaction)
+    pub invalid: bool,
 }
 
 impl Drop for ScriptedConn {
@@ -472,7 +479,7 @@ impl r2d2::ManageConnection for ScriptedMgr {
         });
         engine::point("harness.closure.end");
         match r {
-            Some(serial) => Ok(ScriptedConn { serial, broken: false }),
+            Some(serial) => Ok(ScriptedConn { serial, broken: false, invalid: false }),
             None => Err(ScriptErr("connect refused")),
         }
     }
@@ -480,10 +487,16 @@ impl r2d2::ManageConnection for ScriptedMgr {
     fn is_valid(&self, conn: &mut ScriptedConn) -> Result<(), ScriptErr> {
         engine::point("harness.closure.mid");
         let serial = conn.serial;
+        let invalid = conn.invalid;
         let bad = with_w(|w| {
             let n = w.valid_calls;
             w.valid_calls += 1;
-            if w.sc.valid_err_calls.contains(&n) {
+            if invalid {
+                w.fault("is_valid_err");
+                w.mark_reported(serial, "is_valid_err");
+                trace!("  is_valid(#{}) call #{} -> Err (connection invalidated)", serial, n);
+                true
+            } else if w.sc.valid_err_calls.contains(&n) {
                 w.fault("is_valid_err");
                 w.mark_reported(serial, "is_valid_err");
                 trace!("  is_valid(#{}) call #{} -> Err (scripted)", serial, n);
@@ -551,6 +564,13 @@ impl Bk for R2d2B {
             with_w(|w| {
                 w.fault("marked_broken");
                 w.mark_dead(serial, "marked_broken");
+            });
+        }
+        if kind == IKind::Invalidate {
+            c.invalid = true;
+            with_w(|w| {
+                w.fault("connection_invalidated");
+                w.mark_dead(serial, "fails_validity_check");
             });
         }
     }
@@ -649,12 +669,12 @@ impl Bk for DieselB {
             with_w(|w| w.violate("interact_result_faithful", format!("interact on connection #{serial} was given connection #{v}")));
             return;
         }
-        let (tx_open, test_tx, custom_query) = with_w(|w| {
+        let (tx_open, test_tx, custom_query, tx_error) = with_w(|w| {
             let r = w.conns.get(&serial).cloned().unwrap_or_default();
-            (r.tx_open, r.test_tx, matches!(w.sc.backend, Backend::Diesel { method: DMethod::CustomQuery }))
+            (r.tx_open, r.test_tx, matches!(w.sc.backend, Backend::Diesel { method: DMethod::CustomQuery }), r.tx_error)
         });
         match kind {
-            IKind::LeaveTx if !test_tx => {
+            IKind::LeaveTx if !test_tx && !tx_error => {
                 AnsiTransactionManager::begin_transaction(c).expect("harness: begin_transaction");
                 with_w(|w| {
                     if let Some(r) = w.conns.get_mut(&serial) {
@@ -663,6 +683,28 @@ impl Bk for DieselB {
                     w.fault("left_transaction_open");
                     w.mark_dead(serial, "left_transaction_open");
                 });
+            }
+            IKind::TxError if !tx_open && !test_tx => {
+                // a ROLLBACK issued behind the transaction manager's back makes its own rollback
+                // fail: the manager ends up in its error state, which diesel reports as broken
+                let r: Result<(), diesel::result::Error> = c.transaction(|c| {
+                    use diesel::RunQueryDsl;
+                    let _ = diesel::sql_query("ROLLBACK").execute(c)?;
+                    Err(diesel::result::Error::RollbackTransaction)
+                });
+                let _ = r;
+                if AnsiTransactionManager::is_broken_transaction_manager(c) {
+                    with_w(|w| {
+                        if let Some(r) = w.conns.get_mut(&serial) {
+                            r.tx_open = true;
+                            r.tx_error = true;
+                        }
+                        w.fault("transaction_manager_in_error");
+                        w.mark_dead(serial, "transaction_manager_in_error");
+                    });
+                } else {
+                    with_w(|w| w.probe("tx_error_not_reached"));
+                }
             }
             IKind::TestTx if !tx_open && !test_tx => {
                 c.begin_test_transaction().expect("harness: begin_test_transaction");
@@ -1532,9 +1574,9 @@ pub fn gen_knobs(rng: &mut Rng) -> Knobs {
 fn gen_kind(rng: &mut Rng, backend: Backend) -> IKind {
     match backend {
         Backend::Sqlite => *rng.pick(&[IKind::Ok, IKind::Ok, IKind::Ok, IKind::Panic, IKind::Panic, IKind::Invalidate]),
-        Backend::R2d2 => *rng.pick(&[IKind::Ok, IKind::Ok, IKind::Ok, IKind::Panic, IKind::Panic, IKind::MarkBroken, IKind::MarkBroken]),
+        Backend::R2d2 => *rng.pick(&[IKind::Ok, IKind::Ok, IKind::Ok, IKind::Panic, IKind::Panic, IKind::MarkBroken, IKind::MarkBroken, IKind::Invalidate, IKind::Invalidate]),
         Backend::Diesel { method } => {
-            let mut v = vec![IKind::Ok, IKind::Ok, IKind::Ok, IKind::Panic, IKind::Panic, IKind::LeaveTx, IKind::LeaveTx, IKind::TestTx];
+            let mut v = vec![IKind::Ok, IKind::Ok, IKind::Ok, IKind::Panic, IKind::Panic, IKind::LeaveTx, IKind::LeaveTx, IKind::TestTx, IKind::TxError];
             if method == DMethod::CustomQuery {
                 v.push(IKind::Invalidate);
                 v.push(IKind::Invalidate);
@@ -1638,9 +1680,9 @@ pub fn grid_scenarios() -> Vec<BScenario> {
     for b in backends {
         let kinds: Vec<IKind> = match b {
             Backend::Sqlite => vec![IKind::Ok, IKind::Panic, IKind::Invalidate],
-            Backend::R2d2 => vec![IKind::Ok, IKind::Panic, IKind::MarkBroken],
-            Backend::Diesel { method: DMethod::CustomQuery } => vec![IKind::Ok, IKind::Panic, IKind::LeaveTx, IKind::TestTx, IKind::Invalidate],
-            Backend::Diesel { .. } => vec![IKind::Ok, IKind::Panic, IKind::LeaveTx, IKind::TestTx],
+            Backend::R2d2 => vec![IKind::Ok, IKind::Panic, IKind::MarkBroken, IKind::Invalidate],
+            Backend::Diesel { method: DMethod::CustomQuery } => vec![IKind::Ok, IKind::Panic, IKind::LeaveTx, IKind::TestTx, IKind::Invalidate, IKind::TxError],
+            Backend::Diesel { .. } => vec![IKind::Ok, IKind::Panic, IKind::LeaveTx, IKind::TestTx, IKind::TxError],
         };
         for max_size in [1usize, 2] {
             for lifo in [false, true] {
